@@ -111,6 +111,19 @@ func C19(p *core.Program, r *core.Report) {
 				rule := fmt.Sprintf("for all inputs in [0,1]: new value in [0,1] and new %s old", want)
 				detail := fmt.Sprintf("new = %s; range [%g,%g]; new-old range [%g,%g]", pl.String(), lo, hi, dlo, dhi)
 				r.Check(okRange && okMono, key, rule, p.Pos(mu.Pos()), detail, detail)
+				if !unify {
+					// the same direction in floating point: decided on the form of the expression
+					ff := &floatForm{s: sz, isOld: func(v ssa.Value) bool {
+						n, ok := sz.sym(v)
+						return ok && n == "pOld"
+					}}
+					okForm := (want == ">=" && ff.raising(mu.Value)) || (want == "<=" && ff.lowering(mu.Value))
+					form := "old + t with t a product of values in [0,1] and terms (1 - x)"
+					if want == "<=" {
+						form = "old * f with f in [0,1]"
+					}
+					r.Check(okForm, fmt.Sprintf("float-monotone-form/%s", fname(fn)), "the update is written so that its IEEE-754 evaluation moves the value in the required direction only ("+form+"): every operation rounds monotonically, so new "+want+" old holds for the computed values, not just for the real ones", p.Pos(mu.Pos()), "", "the expression "+pl.String()+" is not of that form (e.g. 1-(1-old)*(1-q) equals old+(1-old)*q over the reals, but 1-(1-old) already rounds away from old below 0.5: an update with q = 0 lowers the value)")
+				}
 			}
 		})
 	}
